@@ -22,6 +22,7 @@ from .. import tables, ucd
 from ..interp import AnalysisError, Adt, I, Opq, Ref, Str, Sym, Tup
 from ..mir import Program
 from ..report import Report
+from ..label import LabelWorld
 from ..worlds import OracleWorld
 from . import l4
 
@@ -214,14 +215,17 @@ def own_set(prog, rep, rule_path):
         return None
     rep.fn(rule_path)
 
-    class W(OracleWorld):
-        def iter_nth(self, m, st, itref, n):
-            # the first read is the character at the rule's own position
+    class W(LabelWorld):
+        # the first read is the character at the rule's own position; whatever is inspected next is context
+        def read_at(self, m, st, cur, pos):
             k = st.ext.get("reads", 0)
             st.ext["reads"] = k + 1
-            if k == 0:
-                return ip.some(Sym("own", "char"))
-            raise StopOwn()
+            if k > 0:
+                raise StopOwn()
+            if pos != ("rel", 0):
+                raise AnalysisError("the rule's first read is at %r, not at its own position" % (pos,))
+            st.set_fact(("at", 0), "present") if ("at", 0) not in st.facts else None
+            return LabelWorld.read_at(self, m, st, cur, pos)
 
         def call(self, m, st, callee, args, term):
             if callee["path"].startswith("precis_core::context::") and callee["path"].rsplit("::", 1)[1] in ("before", "after"):
@@ -231,6 +235,11 @@ def own_set(prog, rep, rule_path):
             return OracleWorld.call(self, m, st, callee, args, term)
 
         def chars_next(self, m, st, itref):
+            if st.ext.get("reads", 0) == 0:
+                return LabelWorld.chars_next(self, m, st, itref)
+            raise StopOwn()
+
+        def loop_arrival(self, m, st, fr, target):
             raise StopOwn()
 
     class StopOwn(AnalysisError):
@@ -253,12 +262,12 @@ def own_set(prog, rep, rule_path):
                     work.append(c)
                 break
             except StopOwn:
-                other += list(s.facts.get(("rng", "own"), ((0, 0x10FFFF),)))
+                other += list(s.facts.get(("rng", ("at", 0)), ((0, 0x10FFFF),)))
                 break
             except ip.Infeasible:
                 break
             if res is not None:
-                r = s.facts.get(("rng", "own"), ((0, 0x10FFFF),))
+                r = s.facts.get(("rng", ("at", 0)), ((0, 0x10FFFF),))
                 v = res.value
                 is_na = isinstance(v, Adt) and v.ty == ip.RESULT and v.variant == 1 and isinstance(v.fields[0], Adt) and v.fields[0].variant == 0
                 (na if is_na else other).extend(r)
